@@ -1,7 +1,8 @@
 /* C09 harness: bytecode words of a function and of (asm (disasm f)).
  * stdin: one janet expression per line, prefixed "A " (assemble / compile only) or "R " (also run original and
  * reassembled function on a fixed argument set and compare).  stdout, one line each:
- *   ok <words f> <words g>        words = idx:hex,… of the non-zero words; nested funcdefs follow after '/'
+ *   ok <words f> <words g> |D <disasm>   words = idx:hex,… of the non-zero words; nested funcdefs follow after '/';
+ *                                 disasm = (disasm f :bytecode) of the outer funcdef: mnemonic,arg,…;… ('!' = bracket tuple)
  *   err1 <message>                the expression itself failed (e.g. the assembler rejected the description)
  *   err2 <words f> <message>      (asm (disasm f)) failed
  *   beh <words f> <detail>        behaviour of f and g differs */
@@ -33,6 +34,7 @@ static void clean(const uint8_t *s, int32_t n) {
 static const char *prelude =
     "(def __args [0 1 -1 2 127 -127 -128 -129 128 255 256 32767 -32767 -32768 -32769 32768 1000000 -1000000 0.5 -128.5])\n"
     "(defn __run [f x] (def [ok r] (protect (f x))) [ok (if ok (if (function? r) :function r) (string r))])\n"
+    "(defn __dis [f] (string/join (map (fn [t] (if (tuple? t) (string (if (= (tuple/type t) :brackets) \"!\" \"\") (string/join (map string t) \",\")) (string \"raw,\" t))) (disasm f :bytecode)) \";\"))\n"
     "(defn __rt [run thunk]\n"
     "  (def [ok f] (protect (thunk)))\n"
     "  (if (not ok) [:err1 (string f)]\n"
@@ -41,7 +43,7 @@ static const char *prelude =
     "        (do (var bad nil)\n"
     "          (when run (each x __args (def a (__run f x)) (def b (__run g x))\n"
     "            (unless (or (deep= a b) (and (number? (a 1)) (number? (b 1)) (nan? (a 1)) (nan? (b 1)))) (set bad (string/format \"arg %q: %q vs %q\" x a b)))))\n"
-    "          (if bad [:beh bad f] [:ok f g]))))))\n";
+    "          (if bad [:beh bad f] [:ok f g (__dis f)]))))))\n";
 
 int main(void) {
     janet_init();
@@ -67,6 +69,11 @@ int main(void) {
             dump_def(janet_unwrap_function(t[1])->def);
             printf(" ");
             dump_def(janet_unwrap_function(t[2])->def);
+            if (janet_tuple_length(t) > 3 && janet_checktype(t[3], JANET_STRING)) {
+                const uint8_t *d = janet_unwrap_string(t[3]);
+                printf(" |D ");
+                fwrite(d, 1, (size_t) janet_string_length(d), stdout);
+            }
             printf("\n");
         } else if (!strcmp((const char *) tag, "err1")) {
             const uint8_t *m = janet_unwrap_string(t[1]);
